@@ -58,6 +58,14 @@ CHECKS = {
             "round-trip monitor over an in-memory stream that delivers exactly chosen segments; reference encoder; exhaustive two-way splits and prefixes for short encodings",
             "Generated frame sequences are written with Connection::write_frame (bytes must equal the reference encoding) and read back with Connection::read_frame under all-at-once, byte-by-byte, every two-segment split and random segmentations (same frames, then clean None); every strict prefix must be Incomplete for Frame::check and a stream ending inside a frame must give an error. Thorough repeats a reduced set under Miri.",
             "Nested arrays are not frames the connection can write (unimplemented in write_frame)."),
+    "C06": ("exploration", "DESIGN.md 5/C06",
+            "byte-exact reply-stream monitor over real TCP connections to the real server (child process): map model + reference encoder, varied segmentation and pipelining",
+            "Generated SET/GET/DEL streams (arbitrary UTF-8 keys, values up to 256 KB) are sent to a child process running the real Server over a real store under one-byte / random / frame-aligned / all-at-once segmentation and pipelining depth 1..whole stream; the received bytes must equal the model's reply stream byte for byte, and the store dumped at the end must equal the model.",
+            "Receiver-side segmentation is influenced, not controlled (C08 controls it exactly). One server child per worker."),
+    "C10": ("exploration", "DESIGN.md 5/C10",
+            "containment monitor: hostile streams of 14 classes on some connections while model-checked control connections run; process liveness, fresh-connection probe and store dump",
+            "1-4 hostile connections (garbage, malformed and mistyped commands, truncation, nesting to 10^6, absurd lengths, handler panics) run concurrently with control connections whose every reply is checked byte for byte; afterwards the server process must be alive, a fresh connection served, and the dumped store equal the model changed only by well-formed SET/DEL.",
+            "Memory exhaustion by gigabyte streams is not attempted. The handler-panic attack uses a storage wrapper around the real handle (serve.rs)."),
 }
 
 NOT_YET = {
